@@ -235,3 +235,18 @@ def run(tier, seed):
                          extra={'builds': [v for v, _ in variants], 'exhaustive_LEN': lens,
                                 'exhaustive_edge_vectors': {str(L): len(v) for L, v in exhaustive.items()},
                                 'rustc_nightly': common.rustc_version('nightly')})
+
+
+def rejudge(case, recs, res, variant, v):
+    edges, cw, samples, seq = [], None, [], []
+    for o in case.ops:
+        t = o.split()
+        if t[0] == 'HR':
+            edges = [common.h2f(x) for x in t[2:]]
+        elif t[0] == 'HW':
+            cw = (common.h2f(t[2]), common.h2f(t[3]))
+        elif t[0] == 'HF':
+            samples = [common.h2f(x) for x in t[2:]]
+        elif t[0] == 'HA':
+            seq = [common.h2f(x) for x in t[2:]]
+    judge(case, case.type, edges, samples, seq, recs, res, variant, cw)
